@@ -55,7 +55,7 @@ Example C02_sections_example :
 Proof. exact (eq_refl _). Qed.
 Print Assumptions C02_sections_example.
 
-(* Lists (core.py:388-547 ParseLines.analyze / collect_items / splitdl; model C02/ModelLines.v mirrors the imperative loops:
+(* Lists (core.py:388-551 ParseLines.analyze / collect_items / splitdl; model C02/ModelLines.v mirrors the imperative loops:
    startpos loop, outer while, collect_items loop with the inner while that swallows lines with a longer prefix, recursion on
    the item's lines after stripping one prefix char, splitdl for '; term : description'): for every sequence of list lines
    whose prefixes are over * # ; : (any number of lines, any prefix lengths, with or without a top-level colon), the fuelled
@@ -71,24 +71,28 @@ Theorem C02_lists_nest_any_fuel : forall (ls : list line) (fuel : nat), valid_li
 Proof. exact analyze_den_list_fuel. Qed.
 Print Assumptions C02_lists_nest_any_fuel.
 
-(* the denoted list trees hold the text of all lines in source order, unless a one-line definition item `p; term : desc`
-   is directly followed by a line whose prefix extends `p;` (dl_swallows) *)
-Theorem C02_lists_text_in_order : forall ls : list line, no_dl_swallow ls ->
+(* the denoted list trees — hence, by C02_lists_nest, what the code builds — hold the text of ALL lines in source order,
+   without exception (since fix 9ee1990 the lines swallowed by a one-line definition item `; term : desc` go into the
+   description node, after the description text) *)
+Theorem C02_lists_text_in_order : forall ls : list line,
   leaves_l (den_list (line_fuel ls) ls) = leaves_l (flat_map line_text ls).
 Proof. exact den_list_text_in_order. Qed.
 Print Assumptions C02_lists_text_in_order.
 
-(* ... and in that excluded case the code (and its model) DOES re-order the text: `;1 : 2` followed by `;* 3` gives
-   dt[1, ul[li[3]]], dd[2] — leaves 1,3,2 (proposed fix: /verif/fixes/C02-deflist-sublist-order.diff) *)
-Theorem C02_lists_text_in_order_refuted :
-  valid_lines swallow_lines /\ ~ no_dl_swallow swallow_lines /\
+Theorem C02_lists_code_text_in_order : forall ls : list line, valid_lines ls ->
+  exists ts, analyze_model (analyze_fuel ls) ls = LOk ts /\ leaves_l ts = leaves_l (flat_map line_text ls).
+Proof. exact analyze_text_in_order. Qed.
+Print Assumptions C02_lists_code_text_in_order.
+
+(* the former counter-example: `;1 : 2` followed by `;* 3` now gives dt[1], dd[2, ul[li[3]]] — leaves 1,2,3 *)
+Example C02_lists_swallow_example :
+  valid_lines swallow_lines /\
   analyze_model (analyze_fuel swallow_lines) swallow_lines =
-    LOk [Node LDt (wd 1 ++ [Node LUl [Node LLi (wd 3)]]); Node LDd (wd 2)] /\
-  den_list (line_fuel swallow_lines) swallow_lines = [Node LDt (wd 1 ++ [Node LUl [Node LLi (wd 3)]]); Node LDd (wd 2)] /\
-  leaves_l (den_list (line_fuel swallow_lines) swallow_lines) = [(1, false, false); (3, false, false); (2, false, false)]%N /\
-  leaves_l (flat_map line_text swallow_lines) = [(1, false, false); (2, false, false); (3, false, false)]%N.
-Proof. exact den_list_text_in_order_refuted. Qed.
-Print Assumptions C02_lists_text_in_order_refuted.
+    LOk [Node LDt (wd 1); Node LDd (wd 2 ++ [Node LUl [Node LLi (wd 3)]])] /\
+  den_list (line_fuel swallow_lines) swallow_lines = [Node LDt (wd 1); Node LDd (wd 2 ++ [Node LUl [Node LLi (wd 3)]])] /\
+  leaves_l (den_list (line_fuel swallow_lines) swallow_lines) = [(1, false, false); (2, false, false); (3, false, false)]%N.
+Proof. exact swallow_example. Qed.
+Print Assumptions C02_lists_swallow_example.
 
 Example C02_lists_example :
   valid_lines ex_lines /\
@@ -102,7 +106,7 @@ Example C02_lists_example :
 Proof. exact analyze_example. Qed.
 Print Assumptions C02_lists_example.
 
-Example C02_lists_text_example : no_dl_swallow ex_lines /\
+Example C02_lists_text_example :
   leaves_l (den_list (line_fuel ex_lines) ex_lines) = map (fun w => (w, false, false)) [1; 2; 3; 4; 5; 6; 7; 8; 9]%N.
 Proof. exact text_in_order_example. Qed.
 Print Assumptions C02_lists_text_example.
